@@ -225,6 +225,8 @@ class Socket:
                 pipe.n_ba -= 1
             else:
                 pipe.n_ab -= 1
+        if self.type == PULL:
+            net.tap('pullrecv', self, parts, pipe)
         return list(parts)
 
     def send(self, data, flags=0, **kw):
